@@ -116,5 +116,7 @@ type SStep struct {
 	Del  bool   `json:"del,omitempty"`
 	Wait bool   `json:"wait,omitempty"`
 	Vod  bool   `json:"vod,omitempty"`
-	Act  string `json:"act,omitempty"` // name of the model action this step stands for
+	// CtxUs: context of a stopctx / validate step (0 background, -1 already cancelled)
+	CtxUs int64  `json:"ctx_us,omitempty"`
+	Act   string `json:"act,omitempty"` // name of the model action this step stands for
 }
